@@ -1,10 +1,13 @@
 """C13 An interrupted encryption never leaves a file that verifies."""
 from .common import combined
 LEVEL = 'other'
-RULES = ('R13.a', 'R13.b', 'R13.c', 'R13.d', 'R02.b', 'R08.b', 'S-CMP', 'R05.e')
+RULES = ('R13.a', 'R13.b', 'R13.c', 'R13.d', 'R13.e', 'R02.b', 'R08.b', 'S-CMP', 'R05.e', 'R02.g')
 
 
 def run(prog, rec, tier):
+    # the state before the first write is an empty output file: whatever the parser opens for writing is created or truncated
+    from . import cli_rules
+    cli_rules.CliRules(prog, rec).parser()
     combined(prog, rec, tier, RULES, driver=('layout', 'reader'), hmac=('scmp',),
              explanation='From the ordered write list of execute_encrypt for every T: after the body exactly one write reaches the output, '
              'it is the tag at offset 10, it follows the hash of [48,EOF), nothing follows it but close; every earlier write into '
